@@ -487,6 +487,125 @@ def judge_C19(w):
     return None
 
 
+# ------------------------------------------------------------------------------------------------ C17 / C18 (ConnectionManager)
+class StopScenario(KeyboardInterrupt):
+    """more attempts than the scenario models: stop the run (KeyboardInterrupt passes through Task.__step)"""
+
+
+def mc_run(w):
+    """Replays a scenario on the REAL asyncio scheduler (SelectorEventLoop) driven by a fake clock."""
+    import asyncio, warnings, logging
+    from symx.vloop import RealVirtualLoop          # pure scheduler shim: no symbolic machinery is involved
+    from . import c17_trace as CT
+    import han.meter_connection as MC
+    warnings.simplefilter("ignore")
+    loop = RealVirtualLoop()
+    asyncio.set_event_loop(loop)
+    scale = 2
+    now_units = lambda: int(round(loop.time() * scale))
+    saved = MC.__dict__.get("datetime")
+    MC.datetime = CT.fake_datetime_module(now_units, scale)
+    prm = w["params"]
+    P = lambda name, i: prm.get(f"{name}{i}", 0)
+    quiescent = False
+    try:
+        def sched(fn):
+            if w.get("T") is None:
+                return
+            def fire(d):
+                if d > 0:
+                    loop.call_soon(fire, d - 1)
+                else:
+                    fn()
+            loop.call_at(w["T"] / scale, fire, w.get("D", 0))
+
+        def configure(mgr):
+            for k in ("connection_lost_back_off_threshold", "connection_lost_back_off_sleep_sec"):
+                if k in w:
+                    setattr(mgr, k, w[k])
+            if "max_delay" in w:
+                mgr.back_off_connect_error.max_delay = w["max_delay"]
+        trace, transports, task, mgr = CT.drive(MC, loop, P, w["K"], StopScenario, sched, now_units, configure)
+        try:
+            quiescent = loop.run_until_quiescent(w["horizon"] / scale) == "quiescent"
+        except StopScenario:
+            quiescent = False
+        cut = any(e[0] == "attempt" and e[1] >= w["K"] for e in trace)
+        return trace, transports, quiescent and not cut, cut
+    finally:
+        MC.datetime = saved
+        for t in asyncio.all_tasks(loop):
+            t.cancel()
+        asyncio.set_event_loop(None)
+        try:
+            loop.close()
+        except Exception:
+            pass
+
+
+def observe_C17(w):
+    trace, transports, q, cut = mc_run(w)
+    return [list(e) for e in trace]
+
+
+def judge_C17(w):
+    from . import c17_trace as CT
+    try:
+        trace, transports, q, cut = mc_run(w)
+    except Exception as e:
+        return {"signature": "exception:" + exc_signature(e), "detail": repr(e)}
+    res = CT.analyse_c17(trace, not cut, lambda a, b: a == b, sum(1 for t in transports if t.closed), len(transports))
+    if res:
+        return {"signature": res[0][0], "detail": f"{res[0][1]}; scenario K={w['K']} T={w.get('T')} D={w.get('D')} params={w['params']}; trace={[tuple(e) for e in trace]}"[:1500]}
+    return None
+
+
+def judge_C18(w):
+    from . import c17_trace as CT
+    if w.get("sub") == "strategy":
+        import han.meter_connection as MC
+        b = MC.ExponentialBackOff()
+        b.max_delay = w["max_delay"]
+        n = 0
+        for k, op in enumerate(w["ops"]):
+            if op == "f":
+                b.failure(); n += 1
+            else:
+                b.reset(); n = 0
+            exp = 0 if n == 0 else min(2 ** (n - 1), w["max_delay"])
+            if b.current_delay_sec != exp:
+                return {"signature": "strategy-delay-differs", "detail": f"after ops {w['ops'][:k + 1]} with max_delay={w['max_delay']}: current_delay_sec={b.current_delay_sec}, expected {exp}"}
+        return None
+    try:
+        trace, transports, q, cut = mc_run(w)
+    except Exception as e:
+        return {"signature": "exception:" + exc_signature(e), "detail": repr(e)}
+    res = CT.analyse_c18(trace, w.get("max_delay", 60), w.get("connection_lost_back_off_threshold", 5), w.get("connection_lost_back_off_sleep_sec", 5), 2, lambda c: bool(c), min, max)
+    if res:
+        return {"signature": res[0][0], "detail": f"{res[0][1]}; scenario {({k: v for k, v in w.items() if k != 'params'})} params={w['params']}; trace={[tuple(e) for e in trace]}"[:1500]}
+    return None
+
+
+def judge_C18_strategy(w):
+    return judge_C18(w)
+
+
+def observe_C18(w):
+    if w.get("sub") == "strategy":
+        import han.meter_connection as MC
+        b = MC.ExponentialBackOff(); b.max_delay = w["max_delay"]
+        out = []
+        for op in w["ops"]:
+            (b.failure if op == "f" else b.reset)()
+            out.append(b.current_delay_sec)
+        return out
+    return observe_C17(w)
+
+
+def observe_C18_strategy(w):
+    return observe_C18(w)
+
+
 # ------------------------------------------------------------------------------------------------ dispatch
 def observe(prop, w):
     fn = globals().get("observe_" + prop + ("_" + w["sub"] if w.get("sub") else ""))
